@@ -6,7 +6,7 @@
 (***************************************************************************)
 EXTENDS TraceBase, ScalarField
 
-VARIABLES tl, tBad, tCnt
+VARIABLES tl, tBad, tCnt, life          \* life: the abstract value of the long-lived object of the lifetime chain (sc.Life)
 
 H(s)      == HexToInt(s)
 Is(x, s)  == IntIsHex(x, W, s)
@@ -14,7 +14,7 @@ RMont     == TwoW %% N
 RInv      == ModInv(RMont, N)
 FlagOf(b) == IF b THEN 1 ELSE 0
 
-Classes == {"canon_repr", "sum_window", "diff_borrow", "mont_window", "mont_sqr_window", "decode_ge_n", "decode_lt_n",
+Classes == {"life_step", "life_zero", "life_reject", "canon_repr", "sum_window", "diff_borrow", "mont_window", "mont_sqr_window", "decode_ge_n", "decode_lt_n",
             "canon_reject", "canon_accept", "inv_zero", "inv_special", "alias_all", "alias_recv",
             "half_boundary", "gt_half", "le_half", "sum_empty", "sum_alias", "sum_long", "prod_empty",
             "pow2k_panic", "near_n", "near_zero", "cneg_zero"}
@@ -112,19 +112,54 @@ Verdict(ev) ==
     [] ev.ev = "smont.To"   -> << Is(SMul(H(ev.a), RMont), ev.out), {} >>
     [] ev.ev = "smont.Nonzero" -> << ev.out = FlagOf(~BigEq(H(ev.a), 0)), {} >>
 
-Init == tl = 1 /\ tBad = 0 /\ tCnt = [k \in Classes \cup {"_any"} |-> 0]
+(* ---- object lifetime (sc.Life, stateful): the expected value of the long-lived object after one more mutation, and what *)
+(* every observer (on the object, a fresh copy and a second long-lived object set from it) must then report              *)
+LifeWant(cur, ev) ==
+  LET a == IF ev.op = "wide" THEN 0 ELSE H(ev.arg) IN
+  CASE ev.op = "reset"    -> a
+    [] ev.op = "zero"     -> 0
+    [] ev.op = "one"      -> 1
+    [] ev.op = "add"      -> SAdd(cur, a)
+    [] ev.op = "sub"      -> SSub(cur, a)
+    [] ev.op = "rsub"     -> SSub(a, cur)
+    [] ev.op = "neg"      -> SNeg(cur)
+    [] ev.op = "mul"      -> SMul(cur, a)
+    [] ev.op = "sq"       -> SMul(cur, cur)
+    [] ev.op = "set"      -> a
+    [] ev.op = "setbytes" -> a %% N
+    [] ev.op = "setcanon" -> IF a \prec N THEN a ELSE cur                    \* a rejected decode leaves the object as it was
+    [] ev.op = "cneg"     -> IF ev.ctrl = 0 THEN cur ELSE SNeg(cur)
+    [] ev.op = "csel"     -> IF ev.ctrl = 0 THEN cur ELSE a
+    [] ev.op = "inv"      -> SInv(cur)
+    [] ev.op = "double"   -> SAdd(cur, cur)
+    [] ev.op = "sum"      -> SAdd(SAdd(cur, a), cur)
+    [] ev.op = "prod"     -> SMul(SMul(cur, a), cur)
+    [] ev.op = "setu64"   -> a
+LifeObsOK(ev, want) ==
+  /\ Is(want, ev.bytes) /\ ev.bytes_again = ev.bytes /\ ev.copy = ev.bytes /\ ev.other = ev.bytes
+  /\ ev.ghalf = FlagOf(SGreaterThanHalfN(want)) /\ ev.copy_ghalf = ev.ghalf /\ ev.other_ghalf = ev.ghalf
+  /\ ev.iszero = FlagOf(BigEq(want, 0)) /\ ev.copy_iszero = ev.iszero /\ ev.eqself = 1 /\ ev.eqcopy = 1
+
+Init == tl = 1 /\ tBad = 0 /\ tCnt = [k \in Classes \cup {"_any"} |-> 0] /\ life = IntToHex(0, W)
 
 Step ==
   /\ tl <= NLog
-  /\ LET ev == Log[tl]
-         v  == Verdict(ev)
-     IN  /\ tBad' = IF v[1] THEN tBad ELSE tBad + 1
-         /\ (IF v[1] THEN TRUE ELSE Mismatch(tl, ev))
-         /\ tCnt' = BumpAll(tCnt, v[2])
+  /\ LET ev == Log[tl] IN
+     IF ev.ev = "sc.Life"
+     THEN LET want == LifeWant(H(life), ev)  ok == LifeObsOK(ev, want) IN
+          /\ tBad' = IF ok THEN tBad ELSE tBad + 1
+          /\ (IF ok THEN TRUE ELSE Mismatch(tl, ev))
+          /\ tCnt' = BumpAll(tCnt, {"life_step"} \cup (IF ev.op = "zero" THEN {"life_zero"} ELSE {}) \cup (IF ev.op = "setcanon" /\ ~(H(ev.arg) \prec N) THEN {"life_reject"} ELSE {}))
+          /\ life' = IntToHex(want, W)
+     ELSE LET v == Verdict(ev) IN
+          /\ tBad' = IF v[1] THEN tBad ELSE tBad + 1
+          /\ (IF v[1] THEN TRUE ELSE Mismatch(tl, ev))
+          /\ tCnt' = BumpAll(tCnt, v[2])
+          /\ life' = life
   /\ tl' = tl + 1
 
-Finish == tl = NLog + 1 /\ Done(tl, tBad, tCnt) /\ tl' = tl + 1 /\ UNCHANGED <<tBad, tCnt>>
+Finish == tl = NLog + 1 /\ Done(tl, tBad, tCnt) /\ tl' = tl + 1 /\ UNCHANGED <<tBad, tCnt, life>>
 
 Next == Step \/ Finish
-Spec == Init /\ [][Next]_<<tl, tBad, tCnt>>
+Spec == Init /\ [][Next]_<<tl, tBad, tCnt, life>>
 =============================================================================
